@@ -246,6 +246,25 @@ def run_expiry_case(case):
             if not probs:
                 break
         fails.extend(probs[:2])
+        # ---- silence: no traffic, no key, no mouse for longer than the threshold plus the band.
+        # Everybody times out, and the screen has to say so by itself.
+        if not fails and s.alive():
+            quiet_from = time.time()
+            while time.time() - quiet_from < T + SLACK + 0.7:
+                s.p.pump(0.2)
+            left = None
+            for attempt in range(4):
+                s.p.pump(0.1 if attempt == 0 else 0.4)
+                tr = table_rows(s.fresh_screen())
+                if tr is None:
+                    continue
+                titles, rows = tr
+                left = ({r[0].strip() for r in rows}, titles)
+                if not rows and all(t == 0 for t in titles):
+                    left = None
+                    break
+            if left is not None:
+                fails.append(("C18/table/stale_after_expiry", f"{T + SLACK + 0.7:.1f} s after the last frame (threshold {T} s) and without any operator action the Airplanes tab still shows {sorted(left[0])}, titles Airplanes{left[1]}"))
         if not s.alive():
             fails.append(("C18/terminated", f"radar terminated: {s.stderr()[-300:]}"))
     finally:
